@@ -84,6 +84,30 @@ class CBloomDriver:
                 self.feats.add("stat")
             ctx.op("stat")
             return
+        if kind == "union":
+            # the filter is replaced by its union with a second filter built from generated adds: a PRODUCT, whose element count is
+            # the distinct-element estimate while its cells hold the operands' sums
+            second = self.K(self.case["est"], self.case["fpr"], hash_function=self.hf)
+            for ki2, n2 in op[1]:
+                k2 = self.pool[ki2 % len(self.pool)]
+                second.add(k2, n2)
+                self.true[k2] += n2
+            res = ctx.call(self.noexc, o.union, second)
+            ctx.check(self.noexc, res is not None, "union of same-geometry counting filters returned None")
+            if res.elements_added < 0:
+                # every cell set: the product carries the -1 sentinel and cannot be exported (open finding KF_SATURATED_SETOP, C05);
+                # the history continues with the un-united filter
+                for ki2, n2 in op[1]:
+                    self.true[self.pool[ki2 % len(self.pool)]] -= n2
+                ctx.exclude("KF_SATURATED_SETOP")
+                return
+            self.obj = res
+            self.product = True
+            self.count = res.elements_added
+            self.seen = {}
+            self.feats.add("union_product")
+            ctx.op("union", op[1], self.count)
+            return self.verify(f"after {op}")
         if kind == "swap":
             # stat; move the whole outstanding amount of one key to another key (net total unchanged, different cells); stat again
             src = [k for k in self.pool if self.true[k] > 0]
@@ -126,15 +150,26 @@ class CBloomDriver:
             else:
                 ctx.call(self.noexc, o.add, k, n)
             self.true[k] += n
+            if getattr(self, "product", False):
+                self.count += n
             ctx.op("add", ki, n)
         else:
             n = 1 + op[2] % self.true[k]
+            if getattr(self, "product", False) and o.elements_added - n < 0:
+                # open finding KF_SETOP_PRODUCT_NEGATIVE_COUNT (C05): a legitimate removal from a union product beyond its ESTIMATED
+                # count drives elements_added negative, after which the filter cannot be exported. Excluded by construction.
+                ctx.exclude("KF_SETOP_PRODUCT_NEGATIVE_COUNT")
+                n = o.elements_added
+                if n <= 0:
+                    return self.step(["add", op[1], 1 + op[2] % 3])
             shared = any(j != k and self.true[j] > 0 and set(self.cells[j]) & set(self.cells[k]) for j in self.pool)
             if alt:
                 ctx.call(self.noexc, o.remove_alt, o.hashes(k), n)
             else:
                 ctx.call(self.noexc, o.remove, k, n)
             self.true[k] -= n
+            if getattr(self, "product", False):
+                self.count -= n
             self.feats.add("remove")
             if shared:
                 self.feats.add("remove_with_shared_cell")
@@ -166,8 +201,9 @@ class CBloomDriver:
                 self.seen[key] = raw
         c = self._o("counter")
         if c:
-            tot = sum(self.true.values())
-            ctx.check(c, o.elements_added == tot, lambda: f"{what}: counting bloom elements_added {o.elements_added} != net amount {tot}")
+            # a freshly built filter: net amount; after a union the documented count is the estimate it was set to, +/- later amounts
+            tot = self.count if getattr(self, "product", False) else sum(self.true.values())
+            ctx.check(c, o.elements_added == tot, lambda: f"{what}: counting bloom elements_added {o.elements_added} != documented value {tot}")
 
     def run(self):
         if not self.ok:
@@ -197,6 +233,7 @@ def case_strategy(tier, max_ops=40):
                        st.tuples(st.just("remove"), ki, st.integers(0, 2000)),
                        st.tuples(st.just("remove"), ki, st.integers(0, 2000)),
                        st.tuples(st.just("stat")), st.tuples(st.just("swap"), ki, ki),
+                       st.tuples(st.just("union"), st.lists(st.tuples(ki, st.integers(1, 4)), max_size=4).map(lambda l: [list(x) for x in l])),
                        st.tuples(st.just("reload"), st.integers(0, 2)))
         return {"t": "cbloom", "est": est, "fpr": fpr, "hash": draw(gen.hash_name_st()), "pool": draw(gen.pool_st(2, 8)),
                 "ops": [list(o) for o in draw(st.lists(op, min_size=3, max_size=max_ops))]}
